@@ -4,6 +4,7 @@ import Mathlib.Tactic.FieldSimp
 import Mathlib.Tactic.Positivity
 import EgVerif.Gen.FactsC10IR
 import EgVerif.Gen.FactsC10IRp
+import EgVerif.Gen.FactsC10IRc
 /-!
 # C10 — the regenerated tie by translation (notes/IR.md, "Extension resil")
 
@@ -15,7 +16,7 @@ bridge lemmas below connect the generic mirror (`wrapG`, opaque float algebra) t
 theorems are about (`retryLoopWith`, exact fractions).
 -/
 namespace EgVerif.Retry
-open EgVerif.Gen.FactsC10IR EgVerif.Gen.FactsC10IRp
+open EgVerif.Gen.FactsC10IR EgVerif.Gen.FactsC10IRp EgVerif.Gen.FactsC10IRc
 
 /-- result of the closure from the loop's `Sum` (early `return` inside / falling out of the loop) -/
 def finG {F : Type} : Sum RunG (List EventG × Option Nat × Nat × Nat × Option SPErr × F) → RunG
@@ -545,5 +546,42 @@ theorem backoffLower_eq_floor (p : RetryPolicy) (k : Nat) (hd : 0 < p.fDen) (hf 
     ring
   rw [hq, floor_natCast_div _ _ hden]
   rfl
+
+/-! ### one policy object, several wrappers -/
+
+/-- `CreateWrapper` called `k` times on the same policy object (as `InjectResiliencePolicy` does when `k`
+server pools name the policy): the value of `p.waitDuration` afterwards -/
+def createWrapperTimes (ws : String) (parse : String → Int × Bool) : Nat → Int → Int
+  | 0, wd => wd
+  | k + 1, wd => createWrapperTimes ws parse k (createWrapperG wd ws parse)
+
+theorem createWrapperG_pos (wd0 : Int) (ws : String) (parse : String → Int × Bool) :
+    0 < createWrapperG wd0 ws parse := by
+  unfold createWrapperG createWrapper
+  generalize (if (ws != "") = true then (parse ws).1 else wd0) = x
+  by_cases hx : x ≤ 0
+  · simp [hx]
+  · simp only [hx, if_false]; omega
+
+theorem createWrapperG_idem (wd0 : Int) (ws : String) (parse : String → Int × Bool) :
+    createWrapperG (createWrapperG wd0 ws parse) ws parse = createWrapperG wd0 ws parse := by
+  have hpos := createWrapperG_pos wd0 ws parse
+  by_cases h : ws = ""
+  · have h1 : createWrapperG (createWrapperG wd0 ws parse) ws parse =
+        (createWrapper (createWrapperG wd0 ws parse) : Nat) := by simp [createWrapperG, h]
+    rw [h1]
+    unfold createWrapper
+    have : ¬ createWrapperG wd0 ws parse ≤ 0 := by omega
+    simp only [this, if_false]
+    omega
+  · simp [createWrapperG, h]
+
+theorem createWrapperTimes_succ (ws : String) (parse : String → Int × Bool) (wd0 : Int) :
+    ∀ k, createWrapperTimes ws parse (k + 1) wd0 = createWrapperG wd0 ws parse
+  | 0 => rfl
+  | k + 1 => by
+    have := createWrapperTimes_succ ws parse (createWrapperG wd0 ws parse) k
+    simp only [createWrapperTimes] at this ⊢
+    rw [this, createWrapperG_idem]
 
 end EgVerif.Retry
